@@ -20,6 +20,11 @@ CHECKS = {
         technique="stateless deviation-bounded exploration (<=2 network deviations: drop/dup/delay/replay of any recorded datagram) of the real client+server stack under a virtual clock; reference-model monitor (multiset of sent payloads, set of accepted datagrams)",
         text="All executions with <=2 deviations over 60 (quick) / ~250 (thorough) program configurations (direction x retry mode x single/fragmented x macro step moving the 32-datagram or 256-message window x ack blackout) are run on the implementation; every delivery is checked against the multiset sent and every byte-identical copy of an accepted datagram must be dropped whole (full state snapshot compare).",
         note="payload contents from a marker family; <=2 independent network faults per execution (macro faults make the window-moving histories reachable); crypto primitives trusted"),
+    "C05": dict(
+        engine="mcx", category="model_checking", design="5/C05",
+        technique="stateless deviation-bounded exploration of the real stack: boundary payload lengths x MTU x API x direction with every single datagram loss, plus <=2 deviations (drop/dup/delay) and blackouts on representative sizes; bounded-liveness oracle on a healed network",
+        text="Every boundary length (around P, P-6, k*F, k*F+P-6) for 4 (quick) / 11 (thorough) MTUs through the four guaranteed-send APIs, honest and with each single loss in the first rounds; representative sizes under all <=2-deviation schedules and 6 blackout shapes with concurrent traffic. Delivery must happen within 6 virtual seconds of the network healing while both ends stay CONNECTED.",
+        note="liveness is bounded by a horizon (6 s + fragment count); lengths between the boundaries and MTUs not listed are not run in quick; tick 1/64 s"),
 }
 
 NOT_YET = {
